@@ -63,6 +63,10 @@ def family_key(name):
 
 def check(ctx):
     fx = ctx.facts()
+    # jet signatures are written with the builtin alias names (Gej, Message64, ...): each has to be recognisable in source text
+    from . import c04, c16
+    c04.r_grammar_words(ctx, 'R13.7', order=False)
+    c16.r_name_tables(ctx, 'R13.6', printer=False)   # parser table = grammar alternatives (the printer side belongs to C15/C16)
     rid = 'R13.1'
     ctx.rule(rid, 'source_type and target_type are total explicit tables over all Elements variants (no default arm, no panic)')
     tabs, universe = jet_tables(ctx)
@@ -109,7 +113,8 @@ def check(ctx):
     ctx.rule(rid, 'jet lookup, reserved jets, arity and result guards: decision tables of CallName::analyze and Call::analyze (+ helpers) equal the reviewed table')
     table = guards.load_table()
     guards.compare(ctx, rid, ['<ast::CallName as ast::AbstractSyntaxTree>::analyze', '<ast::Call as ast::AbstractSyntaxTree>::analyze',
-                              '<ast::Call as ast::AbstractSyntaxTree>::analyze::check_argument_types', '<ast::Call as ast::AbstractSyntaxTree>::analyze::check_output_type'], table, 'call analysis', guards.GUARD_FIELDS)
+                              '<ast::Call as ast::AbstractSyntaxTree>::analyze::check_argument_types', '<ast::Call as ast::AbstractSyntaxTree>::analyze::check_output_type'], table, 'call analysis (jet arms)', guards.GUARD_FIELDS,
+                   rowsel=lambda path, r: 'check_' in path or (bool(r['conds']) and r['conds'][0].endswith('=Jet')))
     an = ctx.anchor(fx, '<ast::Call as ast::AbstractSyntaxTree>::analyze')
     for kind, p, ret in explore(ctx, an):
         if kind != 'RET' or not p.conds or p.conds[0][1] != 'Jet':
@@ -140,7 +145,7 @@ def check(ctx):
         for cl in fx.find('^' + re.escape(path) + r'::\{closure#\d+\}$'):
             hits += [c for bid, c, t in cl.calls() if deny.search(c)]
         ctx.ob(rid, 'no-reorder:' + path, not hits, 'no reordering operation in %s' % path, fn.where(), str(hits))
-    c01.schema_rules(ctx, only={'compile::<impl ast::Call>::compile', 'compile::<impl ast::SingleExpression>::compile'})
+    c01.schema_rules(ctx, only={'compile::<impl ast::Call>::compile': r'=Jet\b', 'compile::<impl ast::SingleExpression>::compile': r'=(Call|Tuple)\b'})
     layout.r_btree(ctx, 'R13.4t')
 
 
